@@ -1,6 +1,7 @@
 package harness
 
 import (
+	"context"
 	"crypto/sha256"
 	"encoding/json"
 	"fmt"
@@ -28,31 +29,31 @@ type Viol struct {
 
 // RunInfo summarises one exploration (one harness × configuration).
 type RunInfo struct {
-	Name         string         `json:"name"`
-	Executions   int            `json:"executions"`
-	Complete     int            `json:"complete,omitempty"`
-	Pruned       int            `json:"pruned,omitempty"`
-	States       int            `json:"states"`
-	Transitions  int64          `json:"transitions"`
-	Conflicting  int            `json:"conflicting_executions,omitempty"`
-	Outcomes     map[string]int `json:"outcomes,omitempty"`
-	Bound        string         `json:"bound,omitempty"`
-	Exhaustive   bool           `json:"exhaustive"`
-	Cap          string         `json:"cap,omitempty"`
-	Violations   int            `json:"violations"`
-	Extra        map[string]int `json:"counters,omitempty"`
-	WallS        float64        `json:"wall_s"`
+	Name        string         `json:"name"`
+	Executions  int            `json:"executions"`
+	Complete    int            `json:"complete,omitempty"`
+	Pruned      int            `json:"pruned,omitempty"`
+	States      int            `json:"states"`
+	Transitions int64          `json:"transitions"`
+	Conflicting int            `json:"conflicting_executions,omitempty"`
+	Outcomes    map[string]int `json:"outcomes,omitempty"`
+	Bound       string         `json:"bound,omitempty"`
+	Exhaustive  bool           `json:"exhaustive"`
+	Cap         string         `json:"cap,omitempty"`
+	Violations  int            `json:"violations"`
+	Extra       map[string]int `json:"counters,omitempty"`
+	WallS       float64        `json:"wall_s"`
 }
 
 // Report accumulates what a check covered; it becomes /verif/evidence/<id>.json.
 type Report struct {
-	Property string
-	Tier     string
-	Level    string
-	Seed     int64
-	Rule     string
-	Runs     []RunInfo
-	Samples  []interface{}
+	Property           string
+	Tier               string
+	Level              string
+	Seed               int64
+	Rule               string
+	Runs               []RunInfo
+	Samples            []interface{}
 	Evaluations        int
 	DistinctNontrivial int
 	States             int
@@ -307,9 +308,27 @@ func (r *Report) RunScenarios(names []string, run func(r *Report, name string)) 
 			if !r.Deadline.IsZero() {
 				args = append(args, "-budget", fmt.Sprint(int(left.Seconds())))
 			}
-			cmd := exec.Command(self, args...)
+			// a scenario process that outlives its own budget by two minutes is stuck (e.g. a Close on real pages that
+			// waits for ever): it is killed and reported instead of hanging the whole check
+			cctx, cancel := context.Background(), func() {}
+			if !r.Deadline.IsZero() {
+				cctx, cancel = context.WithTimeout(context.Background(), left+2*time.Minute)
+			}
+			defer cancel()
+			cmd := exec.CommandContext(cctx, self, args...)
 			cmd.Env = append(os.Environ(), "VHARNESS_CHILD="+n, "GOMAXPROCS=2")
 			out, err := cmd.CombinedOutput()
+			if cctx.Err() != nil {
+				cr := Report{Exhaustive: false, Counters: map[string]int{}}
+				if r.CrashIsViolation {
+					cr.Viols = append(cr.Viols, Viol{Property: r.Property, Harness: n, Sig: "process-hang@" + n,
+						Msg: fmt.Sprintf("the process running scenario %s did not finish within its budget plus two minutes and was killed (an operation on real resources blocks for ever):\n%s", n, firstLines(string(out), 30))})
+				} else {
+					cr.Caps = append(cr.Caps, "scenario "+n+": process killed after its budget plus two minutes")
+				}
+				results[i] = &cr
+				return
+			}
 			b, rerr := os.ReadFile(tmp.Name())
 			var cr Report
 			if rerr != nil || json.Unmarshal(b, &cr) != nil {
